@@ -6,6 +6,7 @@ void sched_on_end(const char* verdict);                          // prints the f
 void sched_reset(unsigned long long seed, int policy, const int* prefix, int nprefix, long maxsteps, int spurious, long tickms, int split);
 void sched_set_devs(const int* steps, const int* threads, int n);   // sparse forced choices on top of the policy
 void sched_set_create_failures(unsigned mask);                   // bit k set: the k-th thread creation by a non-main thread (= worker k of the pool) fails with EAGAIN
+void sched_seed_only(unsigned long long seed);
 void sched_main_done();
 void nv_leave(int code) __attribute__((noreturn));                                       // _exit of a schedule process (dumps the gcov counters first under -DVERIF_IMPLCOV)
 int sched_self();
